@@ -320,3 +320,9 @@ func intBits(t types.Type) int {
 	}
 	return 64
 }
+
+// EntryHeapName is the SMT name of the entry heap of element type t (as long as
+// no other symbol of that name exists in the script).
+func EntryHeapName(t types.Type) string {
+	return "H0_" + sanitize((&TypeEnv{}).HeapKey(t))
+}
